@@ -1,6 +1,6 @@
 \* Exhaustive bookkeeping model (C02), quick tier: one session (CreateSession is the
 \* prelude), every log of <= 3 further entries over {line, raft-internal} x
-\* timestamps {0, 3, 6} in any order, <= 1 raft-internal gap, all interleavings of
+\* timestamps {0, 3, 4} in any order, <= 1 raft-internal gap, all interleavings of
 \* Apply / SnapshotTake / PersistOK / PersistFail / Restore / Restart / Tick,
 \* <= 2 snapshots, <= 1 persist failure, <= 1 restart, <= 1 live restore.
 \* Repaired behaviour (FixF2 = FixF3 = TRUE).  Measured: 109,434 distinct states.
@@ -8,7 +8,7 @@
 SPECIFICATION Spec
 CONSTANTS
     Alphabet <- AlphaBook
-    TS = {0, 3, 6}
+    TS = {0, 3, 4}
     Nows = {61, 64, 70}
     Prelude <- PreludeSess
     DefaultExp = 60
